@@ -209,7 +209,7 @@ pub fn feature_modules() -> Vec<(&'static str, String)> {
         m("int", "A ::= INTEGER B ::= INTEGER (0..255) C ::= INTEGER { one(1), two(2) } (1..2) D ::= INTEGER (MIN..5 | 10..MAX, ...)"),
         m("enum", "E ::= ENUMERATED { a, b(5), c } F ::= ENUMERATED { a, ..., b }"),
         m("bits", "A ::= BIT STRING B ::= BIT STRING { x(0), y(3) } (SIZE (4..8)) C ::= OCTET STRING (SIZE (2)) D ::= OCTET STRING (SIZE (1..4, ...))"),
-        m("strings", "A ::= UTF8String (SIZE (1..10)) B ::= IA5String (FROM (\"a\"..\"z\" | \"0\"..\"9\")) (SIZE (1..8)) C ::= NumericString D ::= PrintableString E ::= VisibleString F ::= BMPString G ::= UniversalString H ::= TeletexString I ::= T61String J ::= GraphicString K ::= GeneralString"),
+        m("strings", "A ::= UTF8String (SIZE (1..10)) B ::= IA5String (FROM (\"a\"..\"z\" | \"0\"..\"9\")) (SIZE (1..8)) C ::= NumericString D ::= PrintableString E ::= VisibleString F ::= BMPString G ::= UniversalString H ::= TeletexString I ::= T61String J ::= GraphicString K ::= GeneralString L ::= ISO646String M2 ::= SEQUENCE { i ISO646String (SIZE (1..4)) OPTIONAL }"),
         m("misc", "A ::= NULL B ::= OBJECT IDENTIFIER C ::= RELATIVE-OID D ::= UTCTime E ::= GeneralizedTime F ::= ANY"),
         m("seq", "S ::= SEQUENCE { a BOOLEAN, b INTEGER OPTIONAL, c UTF8String DEFAULT \"x\", d NULL }"),
         m("set", "S ::= SET { a [0] BOOLEAN, b [1] INTEGER OPTIONAL }"),
